@@ -192,7 +192,7 @@ class Effects:
             for x in elts:
                 if x is not None:
                     inner |= self.origins(x, st, fn, recv, fe, comp)
-            site = 'fresh@%d:%d' % (e.lineno, e.col_offset)
+            site = 'fresh@%d:%d%s' % (e.lineno, e.col_offset, ':t' if isinstance(e, ast.Tuple) else '')
             self._put([site], inner)
             return frozenset([site])
         if isinstance(e, (ast.ListComp, ast.SetComp, ast.GeneratorExp, ast.DictComp)):
@@ -233,10 +233,10 @@ class Effects:
         if isinstance(e, (ast.BinOp,)):
             self.origins(e.left, st, fn, recv, fe, comp)
             self.origins(e.right, st, fn, recv, fe, comp)
-            return frozenset(['fresh@%d:%d' % (e.lineno, e.col_offset)])
+            return frozenset(['fresh@%d:%d:b' % (e.lineno, e.col_offset)])
         if isinstance(e, ast.UnaryOp):
             self.origins(e.operand, st, fn, recv, fe, comp)
-            return frozenset(['fresh@%d:%d' % (e.lineno, e.col_offset)])
+            return frozenset(['fresh@%d:%d:u' % (e.lineno, e.col_offset)])
         if isinstance(e, ast.Compare):
             self.origins(e.left, st, fn, recv, fe, comp)
             for c_ in e.comparators:
@@ -292,7 +292,7 @@ class Effects:
         f = c.func
         arg_or = [self.origins(a, st, fn, recv, fe, comp) for a in c.args]
         kw_or = {k.arg: self.origins(k.value, st, fn, recv, fe, comp) for k in c.keywords}
-        site = 'fresh@%d:%d' % (c.lineno, c.col_offset)
+        site = 'fresh@%d:%d:c%d' % (c.lineno, c.col_offset, c.end_col_offset or 0)
         recv_or = frozenset()
         if isinstance(f, ast.Attribute):
             if isinstance(f.value, ast.Call) and is_name(f.value.func, 'super'):
